@@ -149,7 +149,11 @@ fn tournament_config(n: usize, k: usize, pname: &str, vals: &[i64], draws: u64, 
     let sel = Tournament::new(NonZeroUsize::new(k).unwrap());
     let mut rng = TraceRng::derive(seed, "C07-tournament", mix(n as u64, mix(k as u64, fnv_str(pname))));
     let mut wins = vec![0u64; n];
-    let mut subsets: BTreeMap<u32, u64> = BTreeMap::new();
+    let mut subsets: BTreeMap<u128, u64> = BTreeMap::new();
+    // large populations: inclusion counts of individuals and of pairs instead of whole subsets
+    let big = n > 12;
+    let mut incl = vec![0u64; n];
+    let mut pair_incl = vec![0u64; if big { n * n } else { 0 }];
     let mut subset_applicable = k >= 2;
     let max_val = *vals.iter().max().unwrap();
     let cfg = format!("n={n} k={k} {pname}");
@@ -179,19 +183,29 @@ fn tournament_config(n: usize, k: usize, pname: &str, vals: &[i64], draws: u64, 
             return;
         }
         if subset_applicable {
-            let mut mask = 0u32;
+            let mut mask = 0u128;
             for id in &log {
                 mask |= 1 << id;
             }
             if mask.count_ones() as usize != k {
                 subset_applicable = false; // implementation compares differently: instrument N/A
             } else {
-                *subsets.entry(mask).or_insert(0) += 1;
+                if big {
+                    let members: Vec<usize> = (0..n).filter(|i| mask & (1 << i) != 0).collect();
+                    for (x, a) in members.iter().enumerate() {
+                        incl[*a] += 1;
+                        for b in &members[x + 1..] {
+                            pair_incl[a * n + b] += 1;
+                        }
+                    }
+                } else {
+                    *subsets.entry(mask).or_insert(0) += 1;
+                }
                 if mask & (1 << w) == 0 {
                     rep.violation("C07/Tournament/winner-not-in-drawn-subset", || json!({"config": cfg, "values": vals, "winner_index": w, "compared_ids": log}));
                     return;
                 }
-                let best_in_d = (0..n).filter(|i| mask & (1 << i) != 0).map(|i| vals[i]).max().unwrap();
+                let best_in_d = (0..n).filter(|i| mask & (1u128 << i) != 0).map(|i| vals[i]).max().unwrap();
                 if vals[w] != best_in_d {
                     rep.violation("C07/Tournament/not-best-of-drawn-subset", || {
                         json!({"config": cfg, "values": vals, "winner_index": w, "drawn_subset": (0..n).filter(|i| mask & (1 << i) != 0).collect::<Vec<_>>()})
@@ -229,12 +243,34 @@ fn tournament_config(n: usize, k: usize, pname: &str, vals: &[i64], draws: u64, 
         }
     }
     let mut subset_note = json!("not applicable (k = 1 or the implementation's comparison pattern does not expose exactly k individuals)");
-    if subset_applicable && k >= 2 {
+    if subset_applicable && k >= 2 && big {
+        // a uniformly random k-subset contains individual i with probability k/n and the pair
+        // {i, j} with probability k(k-1)/(n(n-1)) - for every i and every pair
+        let p1 = k as f64 / n as f64;
+        let p2 = (k * (k - 1)) as f64 / (n * (n - 1)) as f64;
+        let mut worst = 0.0f64;
+        for i in 0..n {
+            let c = check(format!("{cfg}: individual {i} takes part"), draws, incl[i], p1);
+            worst = worst.max((incl[i] as f64 - draws as f64 * p1).abs() / c.tol.max(1.0));
+            if !c.ok {
+                rep.violation("C07/Tournament/subsets-not-uniform", || json!({"config": cfg, "what": "inclusion frequency of one individual", "check": c.to_json()}));
+            }
+            for j in i + 1..n {
+                let c = check(format!("{cfg}: individuals {i} and {j} take part together"), draws, pair_incl[i * n + j], p2);
+                worst = worst.max((pair_incl[i * n + j] as f64 - draws as f64 * p2).abs() / c.tol.max(1.0));
+                if !c.ok {
+                    rep.violation("C07/Tournament/subsets-not-uniform", || json!({"config": cfg, "what": "joint inclusion frequency of a pair", "check": c.to_json()}));
+                }
+            }
+        }
+        subset_note = json!({"instrument": "inclusion of every individual and every pair", "categories": n + n * (n - 1) / 2, "max_deviation_over_tolerance": worst});
+        rep.count("subset-monitor:applicable(pairs)");
+    } else if subset_applicable && k >= 2 {
         let p = 1.0 / total;
         let mut worst = 0.0f64;
         // every k-subset is a category, including those never seen
         let mut seen = 0usize;
-        for mask in 0u32..(1 << n) {
+        for mask in 0u128..(1 << n) {
             if mask.count_ones() as usize != k {
                 continue;
             }
@@ -269,9 +305,23 @@ pub fn run(args: &Args) -> i32 {
             }
         }
     }
+    // larger populations: sampling code may switch strategy with k or n (rejection sampling,
+    // partial shuffles, fixed-size index buffers, cyclic windows)
+    for n in [10usize, 13, 16, 20, 33, 64, 81, 100] {
+        let mut ks = vec![1, 2, 3, 5, 7, 8, 9, 10, 11, 16, 17, 32, n / 2, n - 2, n - 1, n];
+        ks.retain(|k| *k >= 1 && *k <= n);
+        ks.sort_unstable();
+        ks.dedup();
+        for k in ks {
+            for (pname, vals) in patterns(n).into_iter().filter(|(p, _)| *p == "distinct" || *p == "ties") {
+                configs.push((n, k, pname, vals));
+            }
+        }
+    }
     let mut rep = run_shards(configs.len(), args.threads, 16 << 20, |i| {
         let mut rep = Report::new();
         let (n, k, pname, vals) = &configs[i];
+        let draws = if *n > 12 { draws / 4 } else { draws };
         tournament_config(*n, *k, pname, vals, draws, args.seed, &mut rep);
         rep
     });
@@ -292,7 +342,7 @@ pub fn run(args: &Args) -> i32 {
     rep.finish(
         args,
         "exploration",
-        "populations n = 1..7 x every tournament size k = 1..n x value patterns (distinct, ties, all equal, one best) with the stated number of seeded draws each; Best/Worst on random populations of 1..12 with ties. distinct_nontrivial = distinct (n, k, pattern) configurations + distinct Best/Worst populations",
+        "populations n = 1..7 x every tournament size k = 1..n, and n in {10,13,16,20,33,64,81,100} x k in {1,2,3,5,7,8,9,10,11,16,17,32,n/2,n-2,n-1,n} (inclusion of every individual and pair instead of whole subsets), x value patterns (distinct, ties, all equal, one best) with the stated number of seeded draws each; Best/Worst on random populations of 1..12 with ties. distinct_nontrivial = distinct (n, k, pattern) configurations + distinct Best/Worst populations",
         false,
         &[
             "distributional claims are decided up to the stated resolution; the acceptance region is a Bernstein bound with 1e-10 per category, valid for any correct sampler",
